@@ -115,7 +115,7 @@ prog('ends', {
 }, {
     'fa': [R(1, 'f', set=[8]), R(1, 'f', set=[9]), R(1, 'f')],
     'mm': [R(4, 'm')],
-    'last': [R(3, 'z')],
+    'last': [R(3, 'z'), R(0)],            # the final value may be empty: nothing is appended then (not an older value)
     'term': [R(1, 't', set=[6])],
 }, ['', '0', '1', '2', '3', '9'])
 
